@@ -90,6 +90,9 @@ func OwnedBy(m Mismatch, a map[string]any, prop string) bool {
 	if m.Kind == "nonce" && prop == "C03" {
 		return true
 	}
+	if m.Kind == "relaygen.adv" && (prop == "C05" || prop == "C19") {
+		return true // the advertised relayed address is not where the relay socket is: peers see another source, answers go nowhere
+	}
 	if strings.HasPrefix(m.Kind, "relaygen") && (prop == "C20" || ((prop == "C19" || prop == "C04") && m.Kind == "relaygen.shared")) {
 		return true // (C19: the relayed address of an Allocate success is one no other live allocation has; C04: what arrives there goes to its owner only)
 	}
@@ -124,7 +127,7 @@ func OwnedBy(m Mismatch, a map[string]any, prop string) bool {
 	if strings.HasPrefix(m.Kind, "reaper") && (prop == "C06" || prop == "C15" || prop == "C19") {
 		return true // an allocation ended by something else than its lifetime or Refresh 0 / a straggler that acts
 	}
-	if strings.HasPrefix(m.Kind, "txn") && (prop == "C12" || (prop == "C18" && m.Kind == "txn.hang")) {
+	if strings.HasPrefix(m.Kind, "txn") && (prop == "C12" || ((prop == "C18" || prop == "C09") && m.Kind == "txn.hang")) {
 		return true
 	}
 	if strings.HasPrefix(m.Kind, "steps.") {
